@@ -169,6 +169,10 @@ def gen_case(rnd, model=None, dynamics=None, **kw):
         # two named instances of disease models on one network (the whole-run Coq tie covers single instances only)
         case['inst'] = 'a'
         case['second'] = {'model': rnd.choice(nameable), 'inst': 'b', 'pv': gen_params(rnd, dynamics), 'plain': rnd.random() < 0.4}
+    if rnd.random() < 0.2:
+        # an earlier run on the same objects that is abandoned INSIDE set-up, after every component was built and set up
+        # (events posted, loci filled): epyc does not tear such a run down, and the observed run must not notice it
+        case['abort_first'] = True
     return case
 
 
@@ -438,6 +442,29 @@ def run_case(case):
                 data[proc.INFECTIVITY] = vi_cur['vals'][k]
         proc.initialInfectivities = initial_infectivities
         vi_cur['vals'] = vio['pre']
+    if case.get('abort_first'):
+        install(Oracle(seed=case['seed'] + 2))
+        last = procs[-1]
+        orig_setup = last.setUp
+
+        def abandoned(params_):
+            orig_setup(params_)
+            raise RuntimeError('set-up abandoned by the harness')
+        last.setUp = abandoned
+        try:
+            dyn.set(dict(params)).run(fatal=True)
+        except Exception:
+            pass
+        finally:
+            del last.setUp
+        del entries[:]
+        del posted_entries[:]
+        del snaps[:]
+        registration.clear()
+        del lspecs[:]
+        final.clear()
+        state['posted'] = 0
+        state['started'] = False
     if case.get('prerun'):
         # an earlier run on the SAME experiment object (other parameters, other random choices): by C10 it must
         # not influence the observed run
